@@ -12,7 +12,7 @@
    addresses [base] of sections, functions and imports and [lab] of labels. *)
 From Coq Require Import List Arith ZArith.
 Import ListNotations.
-From MirV Require Import Base.W64 C14.DataSection C14.DataSectionProofs C14.DataSectionExamples.
+From MirV Require Import Base.W64 C14.DataSection C14.DataSectionProofs C14.DataSectionExamples C14.Labels.
 
 (* Every data/bss/ref/lref/expr item gets a place and nothing else does. *)
 Theorem section_partition : forall all i,
@@ -155,3 +155,30 @@ Theorem memory_after_writes : forall base lab all ws m0,
              apply_writes ws m0 x = m0 x).
 Proof. exact memory_after_writes_proof. Qed.
 Print Assumptions memory_after_writes.
+
+(* Round 3.  The labels of an lref item as link-time simplification rewrites them (C14/Labels.v: a function body
+   is a list of labels, jumps and other instructions; a label's address is the size of the code before it).
+   mir.c replaces a label by the LAST of the adjacent labels that start at it; in every function body with
+   distinct labels the replacement has the address of the original label ... *)
+Theorem last_label_same_address : forall b l a,
+  NoDup (labels b) -> label_addr b l = Some a -> label_addr b (last_label b l) = Some a.
+Proof. exact last_label_same_address_proof. Qed.
+Print Assumptions last_label_same_address.
+
+(* ... so the bytes an engine stores for the rewritten item are the bytes of the item the user declared
+   (label address, or label difference, plus displacement: [lref_value]), wherever the code starts. *)
+Theorem lref_canonical_content : forall base code b all nm l1 l2 disp,
+  NoDup (labels b) ->
+  (exists a, label_addr b l1 = Some a) ->
+  (forall l, l2 = Some l -> exists a, label_addr b l = Some a) ->
+  content base (lab_of code b) all (ILref nm (last_label b l1) (option_map (last_label b) l2) disp)
+  = content base (lab_of code b) all (ILref nm l1 l2 disp).
+Proof. exact lref_canonical_content_proof. Qed.
+Print Assumptions lref_canonical_content.
+
+(* Following an unconditional jump placed right after the labels ("as for branch operands") is NOT such a
+   replacement: there is a body in which the label reached has another address. *)
+Theorem thread_label_changes_address :
+  exists b l a, NoDup (labels b) /\ label_addr b l = Some a /\ label_addr b (thread_label b l) <> Some a.
+Proof. exact thread_label_changes_address_proof. Qed.
+Print Assumptions thread_label_changes_address.
